@@ -29,8 +29,9 @@ Anon      == [k |-> "anon"]           \* struct { X int `json:"x"`; Y *string `j
 
 Leafs == {B(n) : n \in Basics} \cup {S(n) : n \in Special} \cup {Anon}
 Depth1 == Leafs \cup {Ptr(e) : e \in Leafs} \cup {Slice(e) : e \in Leafs} \cup {MapS(e) : e \in Leafs}
-          \cup {Array2(B("int")), Array2(B("string")), MapI(B("string")), MapI(B("int64"))}
-Depth2 == {Slice(Slice(B("int"))), Slice(Ptr(B("string"))), Ptr(Slice(B("int"))), MapS(Slice(B("string"))), Slice(MapS(B("int"))),
+          \cup {Array2(B(n)) : n \in {"int", "string", "uint8", "bool", "float64", "int8"}} \cup {Array2(S("named_struct")), Array2(S("bytes"))}
+          \cup {MapI(B("string")), MapI(B("int64"))}
+Depth2 == {Slice(Array2(B("uint8"))), Array2(Slice(B("uint8"))), Ptr(Array2(B("uint8"))), MapS(Array2(B("int"))), Slice(Slice(B("int"))), Slice(Ptr(B("string"))), Ptr(Slice(B("int"))), MapS(Slice(B("string"))), Slice(MapS(B("int"))),
            Ptr(Ptr(B("int"))), MapS(MapS(B("bool"))), Slice(S("named_struct")), Ptr(S("named_struct")), MapS(Ptr(S("named_struct"))),
            Slice(S("bytes")), Slice(Anon), Ptr(S("time")), Slice(S("time")), MapS(S("iface"))}
 FieldTypes == Depth1 \cup Depth2
